@@ -15,6 +15,7 @@ def check(ctx):
     sides.check_sides(ctx, F)
     mergetab.positions_mapping_table(ctx, F)
     mergetab.row_scheme_agrees(ctx, F)
+    mergetab.fold_lore_phases(ctx, F)
     mergetab.call_scheme_agrees(ctx, F)      # the scheme decides which position maps get an entry for a merged stream value
     ctx.clause("R-PAIR one append <-> one recorded state at the four append sites")
     ctx.clause("R-MUST/R-CONST/R-OP add_value ends in check_stream_size_limit; STREAM_MAX_SIZE == 1024; error iff sum >= MAX")
